@@ -92,6 +92,14 @@ def value_check(case):
 
 def merge_cases(tier, seed):
     rng = random.Random(seed + 9)
+    # bra-ket (anti)symmetric tensors in a diagonal block whose bra and ket share the leading
+    # index: the renamed copy differs from the term behind the leading index only
+    for kind in ("K", "V"):
+        for shape in (["i", "j", "i", "k"], ["i", "j", "k", "j"], ["a", "b", "a", "c"]):
+            other = [n for n in dict.fromkeys(shape) if shape.count(n) == 1]
+            for ps in range(6):
+                yield {"term": [[kind, shape, 1], ["X", other + (["a"] if shape[0] == "i" else ["i"]), 1]],
+                       "names": ["i", "j", "k", "l", "a", "b", "c", "d"], "pseed": ps, "coeff": [1, 1]}
     for _ in range(700 if tier == "quick" else 4000):
         names = rng.sample(OCC, 4) + rng.sample(VIRT, 4)
         base = random_term(rng, names[:3] + names[4:7])
